@@ -112,6 +112,10 @@ def resolve(n, kind, parent, parent_kind, b, e, t, ctx, root_wm):
       v = ctx.init.get(p)
     if v is None:
       v = DEFAULTS[p]
+    if p == "TextDecoration" and None in v[1:]:
+      # a component specified neither here nor on an ancestor: the document's initial value, else the TTML default (none)
+      iv = ctx.init.get(p) or DEFAULTS[p]
+      v = ("td",) + tuple(v[i] if v[i] is not None else bool(iv[i]) for i in (1, 2, 3))
     out[p] = v
   # --- direction implied by writing mode on regions (TTML2 10.2.10 special semantics)
   if kind == "region" and sp["Direction"] is None:
